@@ -10,7 +10,9 @@ ENTRY = {
         level_note="A nil router-wide resolver given after a real one is not judged (documentation and code differ, the property only speaks of per-route nil). NewRoute with a nil handler is not probed (not named by the property).",
         rule="cases: (global option sequence, route option sequence, pattern[, update sequence]) and invalid-value cases; non-trivial = at least two options touch the same setting, or an ill-typed/nil value; distinct by the whole case",
         assumptions=["resolvers return distinguishable addresses", "global options are immutable after New"],
-        quick=[REPLAY, R("options", "^(TestOptionSequences|TestInvalidOptions)$", checks=8000, timeout=600)],
-        thorough=[REPLAY, R("options", "^(TestOptionSequences|TestInvalidOptions)$", checks=100000, shards=16, timeout=3000)],
+        quick=[REPLAY, R("options", "^(TestOptionSequences|TestInvalidOptions)$", checks=8000, timeout=600),
+               R("annotation-keys", "^TestAnnotationKeySequences$", checks=3000, timeout=600)],
+        thorough=[REPLAY, R("options", "^(TestOptionSequences|TestInvalidOptions)$", checks=100000, shards=16, timeout=3000),
+                  R("annotation-keys", "^TestAnnotationKeySequences$", checks=50000, shards=4, timeout=3000)],
     ),
 }
